@@ -174,3 +174,25 @@ func IsSubsequence(a, b []string) bool {
 	}
 	return j == len(a)
 }
+
+// Project is the part of an execution that is complete and thread-local once the given completion marks have
+// been logged: for every mark "X-eof" (or "eof") the sequence of values logged under "X" (or "got") by the
+// thread that then logged the mark. It is computed the same way from a terminal state of the exploration and
+// from a finished run on the real runtime, and is what the outcome-conformance check compares.
+func (o *Obs) Project(done []string) string {
+	var kinds []string
+	for _, d := range done {
+		switch {
+		case d == "eof":
+			kinds = append(kinds, "got")
+		case strings.HasSuffix(d, "-eof"):
+			kinds = append(kinds, strings.TrimSuffix(d, "-eof"))
+		}
+	}
+	sort.Strings(kinds)
+	var b strings.Builder
+	for _, k := range kinds {
+		fmt.Fprintf(&b, "%s=%v;", k, o.Strs(k))
+	}
+	return b.String()
+}
